@@ -229,7 +229,8 @@ def corruptions(rng, data, keys, n):
             # a record header (key or data length) replaced by a number far beyond the file
             what = "record-length"
             p, kl, dl = rec_at[-1] if rng.random() < 0.5 else rng.choice(rec_at)
-            v = rng.choice([0x80000000, 0x80000000, 0xffffffff, 0x7fffffff, 0x90000000, L, L - p, 0xfffffff0])
+            v = rng.choice([0x80000000, 0x80000000, 0xffffffff, 0x7fffffff, 0x90000000, L, L - p, 0xfffffff0,
+                            (1 << 32) - rng.randint(1, 48), (1 << 32) - rng.randint(1, 48), (1 << 31) + rng.randint(-24, 24)])
             f = 4 if rng.random() < 0.75 else 0
             b[p + f:p + f + 4] = (v & 0xffffffff).to_bytes(4, "little")
         elif k < 0.30:
